@@ -381,7 +381,9 @@ Proof.
       * destruct (f_ref c).
         -- apply HP in H. exact H.
         -- rewrite rev_cons_app. exact H.
-    + rewrite rev_cons_app. exact H.
+    + destruct (f_ref c && existsb _ _).
+      * apply HP in H. exact H.
+      * rewrite rev_cons_app. exact H.
 Qed.
 
 Lemma fold_closed Pr : rm_closed Pr ->
@@ -405,7 +407,10 @@ Proof.
       * destruct (f_ref x) eqn:Ex.
         -- destruct Hin as [Hin| ->]; [exact Hin|congruence].
         -- destruct Hin as [Hin| ->]; [right; exact Hin|left; reflexivity].
-    + destruct Hin as [Hin| ->]; [right; exact Hin|left; reflexivity].
+    + destruct (f_ref x && existsb _ _) eqn:Ex.
+      * apply andb_true_iff in Ex. destruct Hin as [Hin| ->]; [exact Hin|].
+        destruct Ex as [Ex _]. congruence.
+      * destruct Hin as [Hin| ->]; [right; exact Hin|left; reflexivity].
 Qed.
 
 Lemma fold_keeps rest : forall acc c,
@@ -449,7 +454,8 @@ Proof. destruct l as [|y l]; [intros _; exact I|]. intros H. apply okch_cons2 in
 Lemma fstep_shape h t c :
   fstep (h :: t) c = c :: t \/ fstep (h :: t) c = h :: t \/ fstep (h :: t) c = c :: h :: t.
 Proof.
-  cbn [fstep]. destruct (overlapping (f_full c) (f_full h)); [|right; right; reflexivity].
+  cbn [fstep]. destruct (overlapping (f_full c) (f_full h)).
+  2:{ destruct (f_ref c && existsb _ _); [right; left; reflexivity|right; right; reflexivity]. }
   destruct (f_ref h); [left; reflexivity|].
   destruct (f_ref c); [right; left; reflexivity|right; right; reflexivity].
 Qed.
@@ -465,7 +471,8 @@ Proof.
     + destruct (f_ref c) eqn:Ec; [exact H|].
       apply okch_cons2. split; [exact Hle|]. split; [|exact H].
       intros [Hx|Hx]; congruence.
-  - apply okch_cons2. split; [exact Hle|]. split; [|exact H]. intros _; exact Eo.
+  - destruct (f_ref c && existsb _ _); [exact H|].
+    apply okch_cons2. split; [exact Hle|]. split; [|exact H]. intros _; exact Eo.
 Qed.
 
 Lemma fold_ok rest : forall h t,
@@ -503,23 +510,108 @@ Proof.
   eapply okch_app; exact H.
 Qed.
 
-(* when no adjacent pair is in conflict the loop keeps everything *)
-Lemma fold_id rest : forall h acc,
-  adj_ok (rev (h :: acc) ++ rest) -> fold_left fstep rest (h :: acc) = rev rest ++ h :: acc.
+(* (repaired loop) a kept reference overlaps no citation kept before it *)
+Fixpoint rdeep (acc : list fc) : Prop :=
+  match acc with
+  | [] => True
+  | r :: tl =>
+      (f_ref r = true -> forall y, In y tl -> overlapping (f_full r) (f_full y) = false) /\ rdeep tl
+  end.
+
+Lemma okch_le h t : okch (h :: t) -> forall y, In y t -> le_start y h.
 Proof.
-  induction rest as [|c rest IH]; intros h acc H; cbn [fold_left].
+  revert h. induction t as [|r t IH]; intros h H y Hy; [destruct Hy|].
+  apply okch_cons2 in H. destruct H as (H1 & _ & H3).
+  destruct Hy as [<-|Hy]; [exact H1|].
+  specialize (IH r H3 y Hy). unfold le_start in *. lia.
+Qed.
+
+Lemma existsb_false_all {A} (f : A -> bool) l : existsb f l = false -> forall x, In x l -> f x = false.
+Proof.
+  intros H x Hx. destruct (f x) eqn:E; [|reflexivity].
+  assert (existsb f l = true) by (apply existsb_exists; exists x; split; assumption). congruence.
+Qed.
+
+Lemma fstep_rdeep h t c :
+  okch (h :: t) -> rdeep (h :: t) -> le_start h c -> rdeep (fstep (h :: t) c).
+Proof.
+  intros Hok Hr Hle. cbn [fstep]. destruct (overlapping (f_full c) (f_full h)) eqn:Eo.
+  - destruct (f_ref h) eqn:Eh.
+    + cbn [rdeep] in Hr |- *. destruct Hr as [Hh Ht]. split; [|exact Ht].
+      intros _ y Hy. pose proof (okch_le h t Hok y Hy) as Hyh.
+      eapply ov_pop; [exact Hyh|exact Hle|exact Eo|]. exact (Hh Eh y Hy).
+    + destruct (f_ref c) eqn:Ec; [exact Hr|].
+      cbn [rdeep]. split; [intros Hx; congruence|exact Hr].
+  - destruct (f_ref c && existsb _ _) eqn:Ex; [exact Hr|].
+    cbn [rdeep]. split; [|exact Hr].
+    intros Hc y Hy. rewrite Hc in Ex. cbn [andb] in Ex.
+    exact (existsb_false_all _ _ Ex y Hy).
+Qed.
+
+Lemma fold_rdeep rest : forall h t,
+  okch (h :: t) -> rdeep (h :: t) -> StronglySorted le_start (h :: rest) ->
+  rdeep (fold_left fstep rest (h :: t)).
+Proof.
+  induction rest as [|c rest IH]; intros h t H Hr HS; cbn [fold_left].
+  - exact Hr.
+  - apply StronglySorted_inv in HS. destruct HS as [HS HF].
+    apply Forall_inv in HF as Hhc. apply Forall_inv_tail in HF.
+    apply StronglySorted_inv in HS as HS'. destruct HS' as [HS' HF'].
+    pose proof (fstep_ok h t c H Hhc) as Hok.
+    pose proof (fstep_rdeep h t c H Hr Hhc) as Hrd.
+    destruct (fstep_shape h t c) as [E|[E|E]]; rewrite E in *.
+    + apply IH; [exact Hok|exact Hrd|exact HS].
+    + apply IH; [exact Hok|exact Hrd|]. constructor; assumption.
+    + apply IH; [exact Hok|exact Hrd|exact HS].
+Qed.
+
+Definition refpre (L : list fc) : Prop :=
+  forall l1 r l2, L = l1 ++ r :: l2 -> f_ref r = true ->
+    forall y, In y l1 -> overlapping (f_full r) (f_full y) = false.
+
+Lemma rdeep_app a : forall r b, rdeep (a ++ r :: b) -> f_ref r = true ->
+  forall y, In y b -> overlapping (f_full r) (f_full y) = false.
+Proof.
+  induction a as [|x a IH]; intros r b H Hr y Hy; cbn [app rdeep] in H.
+  - exact (proj1 H Hr y Hy).
+  - exact (IH r b (proj2 H) Hr y Hy).
+Qed.
+
+Lemma rdeep_refpre acc : rdeep acc -> refpre (rev acc).
+Proof.
+  intros H l1 r l2 Heq Hr y Hy. apply (f_equal (@rev fc)) in Heq.
+  rewrite rev_involutive, rev_app_distr in Heq. cbn [rev] in Heq.
+  rewrite <- app_assoc in Heq. cbn [app] in Heq. subst acc.
+  apply (rdeep_app _ _ _ H Hr). apply in_rev in Hy. exact Hy.
+Qed.
+
+(* when no adjacent pair is in conflict and no reference overlaps an earlier element, the loop
+   keeps everything *)
+Lemma fold_id rest : forall h acc,
+  adj_ok (rev (h :: acc) ++ rest) -> refpre (rev (h :: acc) ++ rest) ->
+  fold_left fstep rest (h :: acc) = rev rest ++ h :: acc.
+Proof.
+  induction rest as [|c rest IH]; intros h acc H HR; cbn [fold_left].
   - reflexivity.
   - assert (Hc : f_ref h = true \/ f_ref c = true -> overlapping (f_full c) (f_full h) = false).
     { apply (H (rev acc) h c rest). apply rev_cons_app. }
     assert (E : fstep (h :: acc) c = c :: h :: acc).
-    { cbn [fstep]. destruct (overlapping (f_full c) (f_full h)) eqn:Eo; [|reflexivity].
-      destruct (f_ref h) eqn:Eh.
-      - specialize (Hc (or_introl eq_refl)). discriminate.
-      - destruct (f_ref c) eqn:Ec; [|reflexivity].
-        specialize (Hc (or_intror eq_refl)). discriminate. }
+    { cbn [fstep]. destruct (overlapping (f_full c) (f_full h)) eqn:Eo.
+      - destruct (f_ref h) eqn:Eh.
+        + specialize (Hc (or_introl eq_refl)). discriminate.
+        + destruct (f_ref c) eqn:Ec; [|reflexivity].
+          specialize (Hc (or_intror eq_refl)). discriminate.
+      - destruct (f_ref c) eqn:Ec; [|reflexivity]. cbn [andb].
+        assert (Hex : existsb (fun x => overlapping (f_full c) (f_full x)) (h :: acc) = false).
+        { destruct (existsb _ (h :: acc)) eqn:Ex; [|reflexivity].
+          apply existsb_exists in Ex. destruct Ex as (y & Hy & Hov).
+          rewrite (HR (rev (h :: acc)) c rest eq_refl Ec y) in Hov; [discriminate|].
+          apply in_rev in Hy. exact Hy. }
+        rewrite Hex. reflexivity. }
     rewrite E, IH.
     + cbn [rev]. rewrite <- app_assoc. reflexivity.
     + rewrite rev_cons_app. exact H.
+    + rewrite rev_cons_app. exact HR.
 Qed.
 
 (* ------------------------------------------------------------------ *)
@@ -669,6 +761,22 @@ Proof.
     eapply SS_impl; [|exact HS]. intros a b Hab. apply zle_fst, Hab.
 Qed.
 
+Lemma fullpass_refpre l : refpre (fullpass l).
+Proof.
+  unfold fullpass. pose proof (sort_sorted f_full (dedupe l)) as HS.
+  destruct (sort_by f_full (dedupe l)) as [|first rest].
+  - intros l1 r l2 Heq. apply app_cons_not_nil in Heq. destruct Heq.
+  - apply rdeep_refpre. apply fold_rdeep; [exact I|cbn [rdeep]; split; [intros _ y []|exact I]|].
+    eapply SS_impl; [|exact HS]. intros a b Hab. apply zle_fst, Hab.
+Qed.
+
+(* (repaired filter) a kept reference's full span overlaps no citation kept before it in the
+   full-span pass ... *)
+Theorem fullpass_ref_earlier : forall l l1 r l2,
+  fullpass l = l1 ++ r :: l2 -> f_ref r = true ->
+  forall y, In y l1 -> overlapping (f_full r) (f_full y) = false.
+Proof. intros l l1 r l2 Heq. apply (fullpass_refpre l l1 r l2 Heq). Qed.
+
 Theorem fullpass_ref_neighbours : forall l a b l1 l2,
   fullpass l = l1 ++ a :: b :: l2 -> (f_ref a = true \/ f_ref b = true) ->
   overlapping (f_full b) (f_full a) = false.
@@ -717,13 +825,63 @@ Proof.
     apply in_or_app. right. apply in_map, Hx.
 Qed.
 
+(* a permutation-invariant form of refpre (given adj_ok) on lists sorted by full span *)
+Definition Sprop (L : list fc) : Prop :=
+  forall r y, In r L -> In y L -> f_ref r = true -> r <> y ->
+    overlapping (f_full r) (f_full y) = true -> full_lt r y.
+
+Lemma full_eq_overlap (fr fn fy : zspan) :
+  zspan_ltb fn fr = false -> zspan_ltb fy fn = false -> zspan_ltb fr fy = false ->
+  overlapping fr fy = true -> overlapping fn fr = true.
+Proof. unfold zspan_ltb, overlapping. intros H1 H2 H3 H4. zb. Qed.
+
+Lemma adj_S L : StronglySorted (kle f_full) L -> adj_ok L -> refpre L -> Sprop L.
+Proof.
+  intros HS HA HR r y Hr Hy Href Hne Hov.
+  apply in_split in Hr. destruct Hr as (l1 & l2 & ->).
+  apply in_app_or in Hy. destruct Hy as [Hy|[Hy|Hy]]; [|congruence|].
+  - rewrite (HR l1 r l2 eq_refl Href y Hy) in Hov. discriminate.
+  - destruct l2 as [|n l2']; [destruct Hy|].
+    pose proof (HA l1 r n l2' eq_refl (or_introl Href)) as Hnr.
+    apply SS_app_inv in HS. destruct HS as (_ & HS & _).
+    apply StronglySorted_inv in HS. destruct HS as [HS HF]. rewrite Forall_forall in HF.
+    pose proof (HF y Hy) as Hry. pose proof (HF n (or_introl eq_refl)) as Hrn.
+    apply StronglySorted_inv in HS. destruct HS as [_ HF']. rewrite Forall_forall in HF'.
+    unfold kle, full_lt in *.
+    destruct (zspan_ltb (f_full r) (f_full y)) eqn:Elt; [reflexivity|exfalso].
+    assert (Hny : zspan_ltb (f_full y) (f_full n) = false).
+    { destruct Hy as [<-|Hy]; [apply ltb_irrefl|exact (HF' y Hy)]. }
+    rewrite (full_eq_overlap _ _ _ Hrn Hny Elt Hov) in Hnr. discriminate.
+Qed.
+
+Lemma S_perm L L' : (forall x, In x L <-> In x L') -> Sprop L -> Sprop L'.
+Proof.
+  intros HI HT r y Hr Hy Href Hne Hov.
+  exact (HT r y (proj2 (HI r) Hr) (proj2 (HI y) Hy) Href Hne Hov).
+Qed.
+
+Lemma S_refpre L : StronglySorted (kle f_full) L -> NoDup L -> Sprop L -> refpre L.
+Proof.
+  intros HS HN HT l1 r l2 -> Href y Hy.
+  destruct (overlapping (f_full r) (f_full y)) eqn:Eo; [exfalso|reflexivity].
+  assert (Hry : r <> y).
+  { apply NoDup_remove_2 in HN. intros ->. apply HN, in_or_app. left; exact Hy. }
+  assert (Hlt : full_lt r y).
+  { apply HT; try assumption.
+    - apply in_or_app. right; left; reflexivity.
+    - apply in_or_app. left; exact Hy. }
+  apply SS_app_inv in HS. destruct HS as (_ & _ & Hcross).
+  specialize (Hcross y r Hy (or_introl eq_refl)). unfold kle, full_lt in *. congruence.
+Qed.
+
 (* idempotence *)
 Lemma fullpass_of_adj_sorted l :
-  NoDup (map f_span l) -> adj_ok (sort_by f_full l) -> fullpass l = sort_by f_full l.
+  NoDup (map f_span l) -> adj_ok (sort_by f_full l) -> refpre (sort_by f_full l) ->
+  fullpass l = sort_by f_full l.
 Proof.
-  intros HN HA. unfold fullpass. rewrite (dedupe_id l HN).
+  intros HN HA HR. unfold fullpass. rewrite (dedupe_id l HN).
   destruct (sort_by f_full l) as [|first rest]; [reflexivity|].
-  rewrite (fold_id rest first []); [|exact HA].
+  rewrite (fold_id rest first []); [|exact HA|exact HR].
   rewrite rev_app_distr, rev_involutive. reflexivity.
 Qed.
 
@@ -739,18 +897,25 @@ Proof.
   assert (HPS : Permutation S' F) by apply sort_perm.
   assert (HNS : NoDup (map f_span S')).
   { eapply perm_nodup_span; [apply Permutation_sym, HPS|exact HNF]. }
+  assert (Hmem : forall x, In x (fullpass l) <-> In x S').
+  { intros x. split; intro H.
+    - eapply Permutation_in; [apply Permutation_sym, HPS|].
+      eapply Permutation_in; [apply Permutation_sym, HPF|exact H].
+    - eapply Permutation_in; [apply HPF|]. eapply Permutation_in; [apply HPS|exact H]. }
   assert (HA : adj_ok S').
   { apply T_adj.
     - apply sort_sorted.
     - eapply NoDup_map_inv. exact HNS.
-    - apply (T_perm (fullpass l)).
-      + intros x. split; intro H.
-        * eapply Permutation_in; [apply Permutation_sym, HPS|].
-          eapply Permutation_in; [apply Permutation_sym, HPF|exact H].
-        * eapply Permutation_in; [apply HPF|]. eapply Permutation_in; [apply HPS|exact H].
-      + apply adj_T; [apply fullpass_sorted|apply fullpass_adj]. }
+    - apply (T_perm (fullpass l)); [exact Hmem|].
+      apply adj_T; [apply fullpass_sorted|apply fullpass_adj]. }
+  assert (HRp : refpre S').
+  { apply S_refpre.
+    - apply sort_sorted.
+    - eapply NoDup_map_inv. exact HNS.
+    - apply (S_perm (fullpass l)); [exact Hmem|].
+      apply adj_S; [apply fullpass_sorted|apply fullpass_adj|apply fullpass_refpre]. }
   rewrite (filter_is_sorted_fullpass F).
-  rewrite (fullpass_of_adj_sorted F HNF HA). fold S'.
+  rewrite (fullpass_of_adj_sorted F HNF HA HRp). fold S'.
   apply sorted_unique.
   - apply sort_span_strict, HNS.
   - exact HSF.
